@@ -360,6 +360,130 @@ def check_okhsl_curve(F, rep):
         rep.fail("ALG-LAW", "okhsl curve", "uninterpretable: %s" % ex, F.loc(fw))
 
 
+def check_ok_conversions(F, rep):
+    """OK-REF: the four hand-written conversions between Oklab and Okhsl / Okhsv against Ottosson's published algorithm (okhsl_to_srgb,
+    srgb_to_okhsl, okhsv_to_srgb, srgb_to_okhsv), with the helpers decided elsewhere (find_cusp, get_Cs = ChromaValues::from_normalized, toe,
+    toe_inv, oklab_to_linear_srgb, the hue accessors) left uninterpreted.  The comparison is on the documented ranges (0 <= l, v, s <= 1) and
+    includes the end-point shortcuts: white / black for Okhsl, black and the achromatic axis for Okhsv."""
+    T = "convert::from_into_color_unclamped::FromColorUnclamped"
+    bodies = {}
+    for im in F.find_impls(trait=T):
+        tgt = (im.get("self_adt") or "").split("::")[-1]
+        src = sym._adt_of_type(im["trait_args_s"][0]).split("::")[-1]
+        if not im["derived"] and {tgt, src} in ({"Okhsl", "Oklab"}, {"Okhsv", "Oklab"}):
+            bodies[(tgt, src)] = F.impl_method(im, "from_color_unclamped")
+    n = 0
+    for (tgt, src), b in sorted(bodies.items()):
+        key = "%s<-%s" % (tgt, src)
+        S = Session(F, no_inline={"ok_utils::toe", "ok_utils::toe_inv", "oklab::oklab_to_linear_srgb"},
+                    positive={"C0", "Cmid", "Cmax", "C", "Lc", "Cc"})
+        ctx, R = S.ctx, S.R
+        C0, Cm, Cx, C, h = (ctx.sym(x) for x in ("C0", "Cmid", "Cmax", "C", "h"))
+        Lc, Cc = ctx.sym("Lc"), ctx.sym("Cc")
+        lin = lambda ch, l_, a_, b_: ctx.app("linear_srgb." + ch, [l_, a_, b_])
+
+        def hook(spath, rpath, args, c, ev, fr):
+            if rpath.endswith("ChromaValues::<T>::from_normalized"):
+                return Struct("ok_utils::ChromaValues", {"zero": C0, "mid": Cm, "max": Cx})
+            if rpath.endswith("get_chroma") or spath.endswith("get_chroma"):
+                return C
+            if spath.endswith("GetHue::get_hue"):
+                return Struct("hues::OklabHue", {"0": h})
+            if rpath.endswith("LC::<T>::find_cusp") or spath.endswith("find_cusp"):
+                return Struct("ok_utils::LC", {"lightness": Lc, "chroma": Cc})
+            if spath.endswith("convert::Into::into") and args and isinstance(ev.deref(args[0]), Struct) and ev.deref(args[0]).path.endswith("ok_utils::LC"):
+                o = ev.deref(args[0])   # LC -> ST through the blanket Into: ST::from(LC), decided by the rule "ST::from(LC)"
+                return Struct("ok_utils::ST", {"s": o.fields["chroma"] / o.fields["lightness"], "t": o.fields["chroma"] / (ctx.num(1) - o.fields["lightness"])})
+            if spath.endswith("IntoColorUnclamped::into_color_unclamped") and args and isinstance(ev.deref(args[0]), Struct) \
+                    and ev.deref(args[0]).path.endswith("Oklab"):
+                o = ev.deref(args[0])
+                l_, a_, b_ = o.fields["l"], o.fields["a"], o.fields["b"]
+                return Struct("rgb::rgb::Rgb", {"red": lin("r", l_, a_, b_), "green": lin("g", l_, a_, b_), "blue": lin("b", l_, a_, b_)})
+            return NotImplemented
+        ctx.call_hook = hook
+        toe = lambda x: R.f("ok_utils::toe<T>", x)
+        toe_inv = lambda x: R.f("ok_utils::toe_inv<T>", x)
+        mid, mid_inv = Fr(4, 5), Fr(5, 4)
+        try:
+            if src == "Oklab":
+                L, la, lb = ctx.sym("L"), ctx.sym("la"), ctx.sym("lb")
+                arg = Struct("oklab::Oklab", {"l": L, "a": la, "b": lb})
+            elif src == "Okhsl":
+                sS, l = ctx.sym("s"), ctx.sym("l")
+                arg = Struct("okhsl::Okhsl", {"hue": Struct("hues::OklabHue", {"0": h}), "saturation": sS, "lightness": l})
+            else:
+                sS, vv = ctx.sym("s"), ctx.sym("v")
+                arg = Struct("okhsv::Okhsv", {"hue": Struct("hues::OklabHue", {"0": h}), "saturation": sS, "value": vv})
+            v, _ = S.ev.eval_body(b, [arg])
+            cosh, sinh = R.f("cos", R.f("deg2rad", h)), R.f("sin", R.f("deg2rad", h))
+            k1_hi = R.div(R.mul(1 - mid, Cm, Cm, mid_inv, mid_inv), C0)          # (1 - mid)·C_mid²·mid_inv² / C_0
+            if (tgt, src) == ("Oklab", "Okhsl"):
+                k1_lo = R.mul(mid, C0)
+                t_lo = R.mul(mid_inv, sS)
+                c_lo = R.div(R.mul(t_lo, k1_lo), R.sub(1, R.mul(R.sub(1, R.div(k1_lo, Cm)), t_lo)))
+                t_hi = R.div(R.sub(sS, mid), 1 - mid)
+                k2_hi = R.sub(1, R.div(k1_hi, R.sub(Cx, Cm)))
+                c_hi = R.add(Cm, R.div(R.mul(t_hi, k1_hi), R.sub(1, R.mul(k2_hi, t_hi))))
+                chroma = R.ite(R.lt(sS, mid), c_lo, c_hi)
+                general = Struct("oklab::Oklab", {"l": toe_inv(l), "a": R.mul(chroma, cosh), "b": R.mul(chroma, sinh)})
+                white = Struct("oklab::Oklab", {"l": R.c(1), "a": R.c(0), "b": R.c(0)})
+                black = Struct("oklab::Oklab", {"l": R.c(0), "a": R.c(0), "b": R.c(0)})
+                exp = alg.mk_ite(R.eq(l, 1), white, alg.mk_ite(R.eq(l, 0), black, general))
+                dom = S.domain([(l, ">=", 0), (l, "<=", 1), (sS, ">=", 0), (sS, "<=", 1)])
+            elif (tgt, src) == ("Okhsl", "Oklab"):
+                k1_lo = R.mul(mid, C0)
+                k2_lo = R.sub(1, R.div(k1_lo, Cm))
+                s_lo = R.mul(R.div(C, R.add(k1_lo, R.mul(k2_lo, C))), mid)
+                k2_hi = R.sub(1, R.div(k1_hi, R.sub(Cx, Cm)))
+                t_hi = R.div(R.sub(C, Cm), R.add(k1_hi, R.mul(k2_hi, R.sub(C, Cm))))
+                s_hi = R.add(mid, R.mul(1 - mid, t_hi))
+                sat = R.ite(R.lt(C, Cm), s_lo, s_hi)
+                # palette's guards: zero chroma, L = 1 and L = 0 have no hue slice -> hue 0, saturation 0 (the published code divides by zero there)
+                guard = lambda x: R.ite(R.valid(C), R.ite(R.eq(L, 1), 0, R.ite(R.valid(L), x, 0)), 0)
+                exp = Struct("okhsl::Okhsl", {"hue": Struct("hues::OklabHue", {"0": guard(h)}), "saturation": guard(sat), "lightness": toe(L)})
+                dom = None
+            else:
+                Smax, Tmax = R.div(Cc, Lc), R.div(Cc, R.sub(1, Lc))
+                S0 = Fr(1, 2)
+                k = R.sub(1, R.div(S0, Smax))
+                if (tgt, src) == ("Oklab", "Okhsv"):
+                    den = R.sub(R.add(S0, Tmax), R.mul(Tmax, k, sS))
+                    L_v = R.sub(1, R.div(R.mul(sS, S0), den))
+                    C_v = R.div(R.mul(sS, Tmax, S0), den)
+                    L0, Cq = R.mul(vv, L_v), R.mul(vv, C_v)
+                    L_vt = toe_inv(L_v)
+                    C_vt = R.div(R.mul(C_v, L_vt), L_v)
+                    L_new = toe_inv(L0)
+                    Cq = R.div(R.mul(Cq, L_new), L0)
+                    a_, b_ = cosh, sinh
+                    rr, gg, bb = (lin(ch, R.c(L_vt), R.mul(a_, C_vt), R.mul(b_, C_vt)) for ch in "rgb")
+                    scale = R.cbrt(R.div(1, R.max(R.max(rr, gg), R.max(bb, 0))))
+                    general = Struct("oklab::Oklab", {"l": R.mul(L_new, scale), "a": R.mul(Cq, scale, a_), "b": R.mul(Cq, scale, b_)})
+                    black = Struct("oklab::Oklab", {"l": R.c(0), "a": R.c(0), "b": R.c(0)})
+                    grey = Struct("oklab::Oklab", {"l": toe_inv(vv), "a": R.c(0), "b": R.c(0)})
+                    exp = alg.mk_ite(R.eq(vv, 0), black, alg.mk_ite(R.eq(sS, 0), grey, general))
+                    dom = S.domain([(vv, ">=", 0), (vv, "<=", 1), (sS, ">=", 0), (sS, "<=", 1)])
+                else:
+                    a_, b_ = R.div(la, C), R.div(lb, C)
+                    t = R.div(Tmax, R.add(C, R.mul(L, Tmax)))
+                    L_v, C_v = R.mul(t, L), R.mul(t, C)
+                    L_vt = toe_inv(L_v)
+                    C_vt = R.div(R.mul(C_v, L_vt), L_v)
+                    rr, gg, bb = (lin(ch, R.c(L_vt), R.mul(a_, C_vt), R.mul(b_, C_vt)) for ch in "rgb")
+                    scale = R.cbrt(R.div(1, R.max(R.max(rr, gg), R.max(bb, 0))))
+                    Lr = toe(R.div(L, scale))
+                    val = R.div(Lr, L_v)
+                    sat = R.div(R.mul(R.add(S0, Tmax), C_v), R.add(R.mul(Tmax, S0), R.mul(Tmax, k, C_v)))
+                    mkc = lambda hh, ss_, vv_: Struct("okhsv::Okhsv", {"hue": Struct("hues::OklabHue", {"0": R.c(hh)}), "saturation": R.c(ss_), "value": R.c(vv_)})
+                    exp = alg.mk_ite(R.eq(L, 0), mkc(0, 0, 0), alg.mk_ite(R.valid(C), mkc(h, sat, val), mkc(0, 0, toe(L))))
+                    dom = None
+            n += 1
+            check_value(rep, "OK-REF", key, S, b, v, exp, domain=dom, sample="Ottosson's algorithm incl. the end-point shortcuts, helpers uninterpreted")
+        except (Opaque, poly.TooBig, KeyError, ZeroDivisionError) as ex:
+            rep.fail("OK-REF", key, "uninterpretable: %s" % ex, F.loc(b))
+    rep.floor("Oklab <-> Okhsl/Okhsv conversions", n, 4)
+
+
 def _pieces(v, atom):
     out = []
     for _path, leaf in sym.leaves(v):
@@ -539,7 +663,7 @@ def run(F, rep, tier="quick", extra=None, only=None):
     rep.trusted += ["rustc name resolution / type check", "operator table of rules/sym.py",
                     "Ottosson, 'Okhsv and Okhsl' (2021) reference implementation and the HSLuv reference implementation (rev 4), as transcribed in rules/c15.py",
                     "axioms sqrt(x)^2 = x, cbrt(x)^3 = x"]
-    for fn in (check_max_saturation, check_gamut_intersection, check_small_functions, check_cusp_and_chroma_values, check_duplicates, check_okhsl_curve, check_hsluv, check_hexcone_bounds, check_hexcone_formulas):
+    for fn in (check_max_saturation, check_gamut_intersection, check_small_functions, check_cusp_and_chroma_values, check_duplicates, check_okhsl_curve, check_ok_conversions, check_hsluv, check_hexcone_bounds, check_hexcone_formulas):
         try:
             fn(F, rep)
         except facts.AnchorMissing as ex:
